@@ -39,13 +39,15 @@ type Run struct {
 	cur   *RuleRec
 	P     *Prog
 	seen  map[string]*Ob
+	// idPrefix is prepended to rule ids while a rule of another property is borrowed (see borrow)
+	idPrefix string
 }
 
 func newRun(prop string, p *Prog) *Run { return &Run{Prop: prop, P: p, seen: map[string]*Ob{}} }
 
 // Begin starts a rule. floor: minimal number of obligations the rule must see.
 func (r *Run) Begin(id, text string, floor int) {
-	r.cur = &RuleRec{ID: id, Text: text, Floor: floor, Stats: map[string]int{}}
+	r.cur = &RuleRec{ID: r.idPrefix + id, Text: text, Floor: floor, Stats: map[string]int{}}
 	r.Rules = append(r.Rules, r.cur)
 }
 
@@ -387,4 +389,13 @@ type SelfTestResult struct {
 	Kind   string `json:"kind"` // must-fire | must-stay-silent | fixture
 	OK     bool   `json:"ok"`
 	Detail string `json:"detail"`
+}
+
+// borrow runs a rule that belongs to another property inside this one (the mechanism it checks is anchored in both);
+// its obligations are recorded under "<owner>.<rule>".
+func (r *Run) borrow(owner string, f func()) {
+	old := r.idPrefix
+	r.idPrefix = owner + "."
+	defer func() { r.idPrefix = old }()
+	f()
 }
